@@ -1,4 +1,5 @@
 \* thorough algebra facet: q = 11, n <= 5, t <= 3, EVERY polynomial (4532 groups), every committee, one attempt
+\* measured: 340,659 distinct / 8,111,708 generated states, 220 s (16 workers)
 CONSTANTS
   Q = 11
   NSet = {1, 2, 3, 4, 5}
